@@ -270,10 +270,30 @@ def rule_g(repo, chk):
     chk.ob('C07.g', ok, il, 'inline keeps the prefix of every replaced reference')
 
 
+def rule_h(repo, chk):
+    chk.clause('C07.h', 'the announced target path of a changed file follows the renames component-wise: a path is re-rooted only when the '
+                        'renamed path IS it or is one of its parent directories (no string-prefix test between paths in jedi/api/refactoring)')
+    from ..lib import path_prefix_check
+    path_prefix_check(repo, chk, 'C07.h', ['jedi.api.refactoring', 'jedi.api.refactoring.extract'], floor=0)
+    f = repo.find(REF, 'Refactoring.get_changed_files.calculate_to_path')
+    # the renamed path itself must be covered (renaming a module renames ONE file: equality, not only "below")
+    ok = False
+    for x in ast.walk(f):
+        if isinstance(x, ast.Compare) and len(x.ops) == 1:
+            if isinstance(x.ops[0], ast.Eq):
+                ok = True
+            elif isinstance(x.ops[0], ast.In) and not (isinstance(x.comparators[0], ast.Attribute) and x.comparators[0].attr == 'parents'):
+                ok = True
+        elif isinstance(x, ast.Call) and isinstance(x.func, ast.Attribute) and x.func.attr == 'is_relative_to':
+            ok = True
+    chk.ob('C07.h', ok, f, 'the renamed path itself (a module file) is mapped as well as what lies below it (a package directory)',
+           'no equality / is_relative_to / membership in (p, *p.parents) in calculate_to_path')
+
+
 def describe(chk):
     chk.undecided('that difflib\'s output applies cleanly and that parso\'s refactor preserves all bytes outside the rewritten nodes (library behaviour); '
                   'which nodes a refactoring rewrites')
     chk.assume('an attribute call .rename(x)/.replace(x) with one argument on an unresolved receiver is a pathlib rename')
 
 
-RULES = [('C07.a', rule_a), ('C07.b', rule_b), ('C07.c', rule_c), ('C07.d', rule_d), ('C07.e', rule_e), ('C07.f', rule_f), ('C07.g', rule_g)]
+RULES = [('C07.a', rule_a), ('C07.b', rule_b), ('C07.c', rule_c), ('C07.d', rule_d), ('C07.e', rule_e), ('C07.f', rule_f), ('C07.g', rule_g), ('C07.h', rule_h)]
